@@ -16,6 +16,7 @@ from transactron.lib.fifo import WideFifo
 from engine.th import TH
 
 PROPERTY = "C15"
+HISTORY_LEMMAS = ['batched_queue_history']  # lemmas/History.lean: one-cycle contracts => history-level statement (Lean 4)
 LEVEL = "proof"
 ASSUMPTIONS = [
     "caller obligations: count <= write_width / read_width (argument layouts are range(width+1)); with write_max_count: count <= max_count <= write_width (the documented precondition, which the library's own assertion also states)",
